@@ -142,3 +142,19 @@ Definition chk_ak (c : tables * text *
                               | Some st => ak_validate x st key host addr princs ca
                               | None => None
                               end) got) qs.
+
+(* ---- several files: read_known_hosts / read_authorized_keys with a list of file names ------------ *)
+Definition chk_kh_files (c : tables * list text * list (text * text * Z * option (list Z * list Z * list Z))) : bool :=
+  let '(tb, ts, qs) := c in
+  let x := ext_of tb in
+  forallb (fun q => let '(host, addr, port, got) := q in res_eqb (kh_lookup_files x ts host addr port) got) qs.
+
+Definition chk_ak_files (c : tables * list text *
+                       list (Z * text * text * option (list text) * bool * option (option (list (text * obs))))) : bool :=
+  let '(tb, ts, qs) := c in
+  let x := ext_of tb in
+  forallb (fun q => let '(key, host, addr, princs, ca, got) := q in
+                    vres_eqb (match ak_load_files x ts with
+                              | Some st => ak_validate x st key host addr princs ca
+                              | None => None
+                              end) got) qs.
